@@ -17,10 +17,11 @@ IU = "autoarray.inversion.inversion.imaging.inversion_imaging_util:"
 VU = "autoarray.inversion.inversion.inversion_util:"
 OS = "autoarray.operators.over_sampling.over_sample_util:"
 
-SHAPES = [(65, 3), (3, 65), (300, 17), (17, 300), (25, 41), (41, 25), (70, 70), (33, 32), (130, 9), (4097, 1)]
+# the last two cross 2^16 cells / 2^16 unmasked pixels (thresholds such as "more than 65536 pixels", 16-bit index tables)
+SHAPES = [(65, 3), (3, 65), (300, 17), (17, 300), (25, 41), (41, 25), (70, 70), (33, 32), (130, 9), (4097, 1), (260, 260), (2, 70001)]
 
 
-def big_masks(rng, n=14, ring=0):
+def big_masks(rng, n=12, ring=0):
     for i in range(n):
         H, W = SHAPES[i % len(SHAPES)]
         p = [0.1, 0.5, 0.9, 0.0][i % 4]
@@ -38,7 +39,7 @@ def _set(key, g):
 
 for _k in ("total_pixels_2d_from", "native_index_for_slim_index_2d_from", "total_edge_pixels_from", "edge_1d_indexes_from",
            "border_slim_indexes_from"):
-    _set(M2 + _k, lambda rng, tier: ({"mask_2d": m} for m in big_masks(rng, 10 if True else 0)))
+    _set(M2 + _k, lambda rng, tier: ({"mask_2d": m} for m in big_masks(rng, 12)))
 _set(M2 + "mask_slim_indexes_from", lambda rng, tier: ({"mask_2d": m, "return_masked_indexes": bool(i % 2)} for i, m in enumerate(big_masks(rng))))
 _set(A2 + "array_2d_slim_from", lambda rng, tier: ({"array_2d_native": gens.reals(rng, m.shape, special=False), "mask_2d": m} for m in big_masks(rng)))
 _set(A2 + "array_2d_native_from", lambda rng, tier: ({"array_2d_slim": gens.reals(rng, (int((~m).sum()),), special=False), "mask_2d": m}
